@@ -122,6 +122,11 @@ class World:
                 f.weights.requires_grad_()
             for f in self.lfgg.factors.values():
                 f.weights.requires_grad_()
+            for k, f in enumerate(self.vfgg.factors.values()):
+                if k % 2 == 0:
+                    f.weights = f.weights.to_dense().clone()     # a tensor that owns its storage (not a view), as a user's parameter would
+                f.weights.requires_grad_()
+        self.flavour = flavour
         self.h1, cache = c17.build(cg[0])
         self.h2, _ = c17.build(cg[1])
         self.labels = set(self.fgg.edge_labels())
@@ -150,6 +155,10 @@ class World:
                 return fggs.sum_products(self.fgg, semiring=fggs.RealSemiring(dtype=torch.float64))
             if q == 'viterbi':
                 sh = AG.shape_of(a, a['start'])
+                if self.flavour == 'grad':
+                    # the weights require gradients; viterbi itself is not differentiable and is run without recording
+                    with torch.no_grad():
+                        return fggs.viterbi(self.vfgg, tuple(0 for _ in sh), semiring=fggs.ViterbiSemiring(dtype=torch.float64))
                 return fggs.viterbi(self.vfgg, tuple(0 for _ in sh), semiring=fggs.ViterbiSemiring(dtype=torch.float64))
             if q == 'fz_rule_nolabels':
                 # the rule with the most nodes (most likely to be split), labels argument omitted
@@ -220,7 +229,8 @@ def drive(args):
         a = hmm_like(rng)
     else:
         a = AG.gen_ag(rng, n_nts=(1, 3), max_rules=2, max_nodes=4, max_edges=3, recursion=('linear' if widx % 2 else 'none'), weights='small',
-                      dom_sizes=(2, 2, 3), p_zero=0.1, mp_range=(-3, 0), p_norules=0.0, value_cap=1 << 30)
+                      dom_sizes=(2, 2, 3), p_zero=0.1, mp_range=(-3, 0), p_norules=0.0, value_cap=1 << 30,
+                      allow_unused_terms=(widx % 2 == 0), n_terms=(3, 5) if widx % 2 == 0 else (1, 4), n_nls=(2, 2) if widx % 2 == 0 else (1, 2))
     if widx % 2:
         # keep recursive real-valued sum-products finite: scale the natural weights into (0, 1/4]
         a = dict(a)
